@@ -201,6 +201,150 @@ def server_prepare_headers(u: U):
             "without an override the keep-alive wish of the request is the starting point")
 
 
+@unit("C02", "client.status_line", functions=["aiohttp.http_parser:HttpResponseParser.parse_message"], also=("C10",))
+def client_status_line(u: U):
+    """HttpResponseParser.parse_message: the client's reading of the status line and its connection-reuse decision.
+    An explicit Connection token wins; without one an HTTP/1.0 (or older) response closes, an HTTP/1.1 response keeps
+    the connection exactly when its body is delimited without closing (1xx/204/304, Content-Length or Transfer-Encoding).
+    This is the receiver rule the server's keep-alive decision (server.prepare_headers) is matched against."""
+    from pyvc.text import SText
+
+    from aiohttp import http_exceptions as E
+
+    # ASSUMED str.split contract (whitespace separated, maxsplit=1): one or two parts without leading whitespace
+    version = SText.fresh("version")
+    status = SText.fresh("status")
+    reason = SText.fresh("reason")
+    for q in (version, status, reason):
+        q.may_have_surrogates = True
+    n1 = u.choose(2, "status_line.parts") + 1
+    n2 = u.choose(2, "status_part.parts") + 1
+
+    class _Rest:
+        _pyvc_sym = True
+
+        def split(self, sep=None, maxsplit=-1):
+            assert sep is None and maxsplit == 1
+            return [status, reason][:n2]
+
+        def strip(self):
+            return status
+
+    class _Line:
+        _pyvc_sym = True
+
+        def split(self, sep=None, maxsplit=-1):
+            assert sep is None and maxsplit == 1
+            return [version, _Rest()][:n1]
+
+        def sym_str(self):
+            return "STATUS-LINE"
+
+        def __format__(self, spec):
+            return "STATUS-LINE"
+
+    class _Raw:
+        def decode(self, enc, err):
+            return _Line()
+
+    close = (None, True, False)[u.choose(3, "close")]
+    has_cl, has_te = u.bool("has_content_length"), u.bool("has_transfer_encoding")
+    ph_raises = u.choose(2, "parse_headers_raises") == 1
+
+    class _HH:
+        def sym_contains(self, name):
+            return {"Content-Length": has_cl, "Transfer-Encoding": has_te}[str(name)]
+
+    def parse_headers(self, lines):
+        if ph_raises:
+            raise E.BadHttpMessage("bad header")
+        return _HH(), "RAW", close, None, False, u.bool("chunked")
+
+    p = u.obj("HttpResponseParser", {}, {"parse_headers": parse_headers})
+    f = u.load("aiohttp.http_parser", "HttpResponseParser.parse_message")
+    out = u.call(f, p, [_Raw(), "HEADER-LINES"])
+    if not out.ok:
+        u.check("C10.escape.parse_message_response", isinstance(out.exc, E.HttpProcessingError),
+                f"only HTTP protocol errors (-> client error) may escape parse_message, got {type(out.exc).__name__}")
+        return
+    u.cover("C02.status_line.accepted")
+    m = out.value
+    v, code = m.version, m.code
+    u.check("C02.status.three_digits", And(code >= 0, code <= 999, z3.Length(status.t) == 3)
+            if is_sym(code) else False, "the status code is exactly three ASCII digits")
+    if close is not None:
+        u.check("C02.ka.response_explicit", m.should_close is close, "an explicit Connection token wins")
+        return
+    old = Or(v.major < 1, And(v.major == 1, v.minor == 0))
+    delimited = Or(And(code >= 100, code < 200), code == 204, code == 304, has_cl, has_te)
+    sc = m.should_close
+    u.check("C02.ka.response_default", And(Implies(old, sc), Implies(And(Not(old), delimited), Not(sc)),
+                                           Implies(And(Not(old), Not(delimited)), sc)),
+            "without a Connection token: an HTTP/1.0 response closes (the server closes it: server.prepare_headers), "
+            "an HTTP/1.1 response is reusable exactly when its end does not depend on the connection closing",
+            witness={"version": (v.major, v.minor), "code": code, "content_length": has_cl, "transfer_encoding": has_te,
+                     "should_close": sc})
+
+
+@unit("C02", "server.write_eof", functions=[f"{WRSP}:Response.write_eof"])
+def server_write_eof(u: U):
+    """Response.write_eof for every body kind (none, bytes, pre-compressed bytes, Payload) x bodiless-or-not: the bytes
+    put on the wire after the header block are exactly the body the headers announced - nothing at all for a response
+    that must be empty (HEAD, 1xx, 204, 304), whose headers carry no framing (server.prepare_headers)"""
+    from aiohttp.payload import Payload
+
+    kind = u.choose(4, "body_kind")  # 0 none, 1 bytes, 2 bytes + compressed copy, 3 Payload
+    empty = u.choose(2, "must_be_empty_body") == 1
+    log = []
+
+    class _P(Payload):
+        def __init__(self):  # no Payload.__init__: only the type matters to the function under contract
+            pass
+
+        def write(self, writer):
+            log.append(("payload.write", writer))
+            return SAwait(name="payload.write", raises=(ConnectionResetError("gone"),))
+
+        def close(self):
+            log.append(("payload.close",))
+            return SAwait(name="payload.close")
+
+        def decode(self, *a, **k):
+            return ""
+
+    body = (None, b"BODY", b"BODY", _P())[kind]
+    compressed = b"COMPRESSED" if kind == 2 else None
+
+    def super_write_eof(self, data=b""):
+        log.append(("write_eof", data))
+        return SAwait(name="StreamResponse.write_eof")
+
+    r = u.obj("Response", {"_eof_sent": False, "_body": body, "_compressed_body": compressed, "_req": "REQ",
+                           "_payload_writer": "WRITER", "_must_be_empty_body": empty},
+              {"super.write_eof": super_write_eof}, shared=False)
+    f = u.load(WRSP, "Response.write_eof")
+    out = u.call(f, r)
+    wire = [e for e in log if e[0] in ("payload.write", "write_eof")]
+    if out.ok:
+        u.check("C02.frame.resp.eof_once", [e[0] for e in wire].count("write_eof") == 1 and wire[-1][0] == "write_eof",
+                "the response is ended exactly once, after the body")
+    sent_payload = [e for e in wire if e[0] == "payload.write"]
+    sent_bytes = [e[1] for e in wire if e[0] == "write_eof" and e[1]]
+    if empty or kind == 0:
+        u.check("C02.frame.resp.bodiless_sends_no_body", not sent_payload and not sent_bytes,
+                "a response that must not have a body (HEAD, 1xx, 204, 304: no framing in its headers) puts no body byte "
+                "on the wire, whatever body object it was given - the client would read them as the next response",
+                witness={"body_kind": ("none", "bytes", "compressed", "payload")[kind], "wire": repr(wire)})
+    elif kind == 3:
+        u.check("C02.frame.resp.payload_written_once", len(sent_payload) == 1 and sent_payload[0][1] == "WRITER" and not sent_bytes,
+                "a Payload body is written once, through the response's framing writer")
+    else:
+        u.check("C02.frame.resp.bytes_body_exact", not sent_payload and sent_bytes == [compressed if kind == 2 else body],
+                "a bytes body goes out exactly once: the compressed copy when there is one (its length is the announced one)")
+    if kind == 3 and sent_payload:
+        u.check("C02.frame.resp.payload_closed", ("payload.close",) in log, "a payload that was opened for writing is closed, also on error")
+
+
 @unit("C02", "canary.always_chunked", functions=[f"{RR}:ClientRequest._create_writer"], expect="canary")
 def canary_client(u: U):
     """deliberately false: every request writer chunks"""
